@@ -81,6 +81,21 @@ NEEDS = {
  "C10e": "THRESHOLD: gates with fan-in >= 9 that is not a multiple of 8 (companions OR-ed in groups of 8, leftover dropped)",
  "C11e": "THRESHOLD: >= 7 startpoints in the cone (popcount's in-place ripple adder loses the n&carry term, first reachable at width 7)",
  "C17e": "THRESHOLD: >= 11 nested supergate levels (levels sorted as strings: '10:..' < '1:..')",
+ "C01f": "HELD-OUT: a lint-clean cyclic circuit with a 1-input inverting gate (not / 1-input nand, nor, xnor) whose only fan-in is itself",
+ "C03f": "HELD-OUT: behavioral=True text whose generated gate name <op>_<a>_<b> is already taken (an input called and_a_b, two expressions spelling the same joined name, nested parity over the same operands); partly PYTHONHASHSEED dependent",
+ "C04f": "HELD-OUT: two miter calls that are given the SAME explicit endpoints set/list holding exactly one endpoint (the first call empties it)",
+ "C05f": "HELD-OUT: a second insert_registers call in the same interpreter (the first one leaves d/q keys in the mutable default other_flop_io)",
+ "C06f": "HELD-OUT: strip_blackboxes(ignore_pins=<plain str>) where another pin name is a substring of that string (SE in RESET)",
+ "C07f": "HELD-OUT: add_subcircuit(sc, inst) where <inst>_<n> exists and the first character of n occurs in '<inst>_' (u/u1, m/m, t/t)",
+ "C08f": "HELD-OUT: an xor and an xnor, each with >= 3 fan-ins, whose parity chains start on the same ordered operand pair (same fan-in set: always; overlapping sets: some PYTHONHASHSEED values)",
+ "C09f": "HELD-OUT: a sequential circuit with a primary input/output whose name ends in _<non-data pin> (sys_clk, div2_CK)",
+ "C10f": "HELD-OUT: an and/nand gate and an or/nor gate over exactly the same fan-in set",
+ "C11f": "HELD-OUT: sensitization_transform / sensitize of a primary input that is also marked as output (feed-through pin)",
+ "C15f": "HELD-OUT: bench text in which a DFF's Q net is itself declared OUTPUT",
+ "C16f": "HELD-OUT: a dead node with two or more loads that are all dead (dead fork)",
+ "C17f": "HELD-OUT: any gate with more than two inputs in an output cone",
+ "C18f": "HELD-OUT: a loop that no output depends on (unobserved latch)",
+ "C19f": "HELD-OUT: a circuit whose non-output nodes carry no `output` attribute (fast Verilog reader, Circuit(graph=g)) passed to any query that calls is_output",
  "C18d": "(helper: Circuit.disconnect testing `u in us` with a single name, i.e. a substring test) a cut feedback node whose name contains the name of another driver of one of its loads (n12 / n1)",
  "C19c": "influence/avg_sensitivity with supergates=True and a peer failure in the middle (solver raises, pysat unimportable, approxmc missing or exit 1)",
  "C19": "tx.subcircuit asked for ALL nodes of a blackbox-free circuit (directly or through sensitization_transform / influence with an endpoint whose cone is the whole circuit), then any edit or the internal set_output",
@@ -109,7 +124,9 @@ def main():
         if not os.path.isfile(os.path.join(d, "patch.diff")) or (only and sid not in only):
             continue
         prop = sid[:3]
-        if sid.endswith("b"):
+        if sid.endswith("f"):
+            src2 = " (round 6, held-out measurement: only the property text and the list of earlier changes not to repeat)"
+        elif sid.endswith("b"):
             src2 = " (round 2: told which round-1 change not to repeat)"
         elif sid.endswith("e"):
             src2 = " (round 5: asked for a change that shows only above a size threshold)"
